@@ -393,3 +393,166 @@ func expandScenario() engine.Scenario {
 		c.Outcome(name, lq, lp, b2, withBuffer)
 	}}
 }
+
+// ---------------------------------------------------------------------------------------------
+// the key buffer as an environment: the caller may overwrite / zeroize / reuse the slice it passed to NewKeyedPRNG
+
+var keyMutations = []string{"leave", "overwrite-with-another-key", "zeroize", "flip-one-bit"}
+var keyMutationTimes = []string{"before-first-read", "after-first-read", "after-first-Reset"}
+
+func mutateKey(buf []byte, kind int) {
+	switch kind {
+	case 1:
+		for i := range buf {
+			buf[i] = byte(201*i + 77) // "the next party's key" written into the same buffer
+		}
+	case 2:
+		for i := range buf {
+			buf[i] = 0
+		}
+	case 3:
+		buf[len(buf)/2] ^= 0x10
+	}
+}
+
+// prngKeyBufferScenario: every (mutation, moment) x (read, Reset, read, [Reset, read]) sequence. The generator's stream
+// is defined by the key at construction time: its first stream must be that of an independent generator keyed with a
+// private copy of the construction-time key, and every replay after Reset must equal its first stream.
+func prngKeyBufferScenario() engine.Scenario {
+	name := "prng/key-buffer-is-callers"
+	return engine.Scenario{Name: name, Bound: -1, Fn: func(c *engine.Chooser) {
+		ki := c.Choose(2, "key")
+		mut := c.Choose(len(keyMutations), "mutation")
+		when := c.Choose(len(keyMutationTimes), "when")
+		pi := c.Choose(len(callPatterns), "call-sizes")
+		resets := 1 + c.Choose(2, "resets")
+		pat := callPatterns[pi]
+		orig := append([]byte{}, baseKeys()[ki]...)
+		if ki == 0 {
+			orig[3] = 9 // not all-zero, so that zeroizing is a change
+		}
+		buf := append([]byte{}, orig...) // the caller's buffer, handed to the constructor
+		want := drain(mustKeyed(append([]byte{}, orig...)), pat)
+		p := mustKeyed(buf)
+		if when == 0 {
+			mutateKey(buf, mut)
+		}
+		first := drain(p, pat)
+		if !bytes.Equal(first, want) {
+			c.Fail("C17/prng/key-buffer/first-stream-depends-on-later-buffer-content", "key #%d %s %s: the first stream is not the stream of the construction-time key", ki, keyMutations[mut], keyMutationTimes[when])
+			return
+		}
+		if when == 1 {
+			mutateKey(buf, mut)
+		}
+		for k := 0; k < resets; k++ {
+			p.Reset()
+			if when == 2 && k == 0 {
+				mutateKey(buf, mut)
+			}
+			if again := drain(p, pat); !bytes.Equal(again, first) {
+				c.Fail("C17/prng/key-buffer/Reset-does-not-replay-after-caller-changed-its-key-buffer", "key #%d, caller's key slice %s %s: stream after Reset #%d differs from the generator's first stream", ki, keyMutations[mut], keyMutationTimes[when], k+1)
+				return
+			}
+		}
+		// Key(): documented as "a copy of the key used to seed the PRNG ... can be used with NewKeyedPRNG to instantiate a
+		// new PRNG that will produce the same stream". Upstream returns an empty key for generators made by NewKeyedPRNG
+		// (noted in FINDINGS.md, not judged); when a key IS returned it must be the construction-time key.
+		if key := p.Key(); len(key) > 0 {
+			if !bytes.Equal(drain(mustKeyed(key), pat), first) {
+				c.Fail("C17/prng/key-buffer/Key-is-not-the-construction-time-key", "key #%d %s %s: NewKeyedPRNG(p.Key()) does not reproduce p's stream", ki, keyMutations[mut], keyMutationTimes[when])
+				return
+			}
+			c.Cover("prng-key", "returned")
+		} else {
+			c.Cover("prng-key", "empty")
+		}
+		c.Cover("prng-key-buffer", keyMutations[mut]+"/"+keyMutationTimes[when])
+		c.State("prng-key-buffer", ki, mut, when, pi, resets)
+		c.Outcome(name, ki, mut, when, pi, engine.Hash(first))
+	}}
+}
+
+// prngReusedBufferScenario: several parties' generators constructed one after the other from ONE reused scratch
+// buffer holding distinct keys; interleaved reads and Resets. Each generator must keep replaying its own stream and
+// the streams must stay pairwise unrelated (Hamming distance of 4096 bits within [40%,60%]); samplers re-created on the
+// reset generators must reproduce their polynomials.
+func prngReusedBufferScenario() engine.Scenario {
+	name := "prng/generators-from-one-reused-key-buffer"
+	return engine.Scenario{Name: name, Bound: -1, Fn: func(c *engine.Chooser) {
+		parties := 2 + c.Choose(3, "parties")
+		keyLen := []int{32, 64, 16}[c.Choose(3, "key-length")]
+		final := c.Choose(3, "buffer-afterwards") // leave the last key / zeroize / garbage
+		order := c.Choose(2, "reset-order")
+		buf := make([]byte, keyLen)
+		gens := make([]*sampling.KeyedPRNG, parties)
+		keys := make([][]byte, parties)
+		for i := range gens {
+			for j := range buf {
+				buf[j] = byte(splitmix(uint64(i)*1000 + uint64(j)))
+			}
+			keys[i] = append([]byte{}, buf...)
+			gens[i] = mustKeyed(buf)
+		}
+		switch final {
+		case 1:
+			for j := range buf {
+				buf[j] = 0
+			}
+		case 2:
+			for j := range buf {
+				buf[j] = 0xEE
+			}
+		}
+		r := ringOf(mixedChain().mod)
+		L := r.MaxLevel()
+		first := make([][]byte, parties)
+		pol := make([]ring.Poly, parties)
+		for i, g := range gens {
+			first[i] = drain(g, []int{512})
+			pol[i] = ring.NewUniformSampler(g, r).ReadNew()
+		}
+		idx := make([]int, parties)
+		for i := range idx {
+			idx[i] = i
+			if order == 1 {
+				idx[i] = parties - 1 - i
+			}
+		}
+		for _, i := range idx {
+			gens[i].Reset()
+		}
+		for _, i := range idx {
+			if !bytes.Equal(drain(gens[i], []int{512}), first[i]) {
+				c.Fail("C17/prng/key-buffer/Reset-does-not-replay-after-caller-changed-its-key-buffer", "party %d of %d (keys derived one after the other in one reused %d-byte buffer): stream after Reset differs from its first stream", i, parties, keyLen)
+				return
+			}
+			if again := ring.NewUniformSampler(gens[i], r).ReadNew(); !polyEq(again, pol[i], L) {
+				c.Fail("C17/prng/key-buffer/sampler-on-reset-generator-not-reproducible", "party %d: a sampler re-created on the reset generator draws a different polynomial", i)
+				return
+			}
+			if !bytes.Equal(first[i], drain(mustKeyed(keys[i]), []int{512})) {
+				c.Fail("C17/prng/key-buffer/first-stream-depends-on-later-buffer-content", "party %d: stream is not the stream of its construction-time key", i)
+				return
+			}
+		}
+		for i := 0; i < parties; i++ {
+			for j := i + 1; j < parties; j++ {
+				gens[i].Reset()
+				gens[j].Reset()
+				a, b := drain(gens[i], []int{512}), drain(gens[j], []int{512})
+				dist := 0
+				for k := range a {
+					dist += bits.OnesCount8(a[k] ^ b[k])
+				}
+				if dist < 4096*40/100 || dist > 4096*60/100 {
+					c.Fail("C17/prng/key-buffer/distinct-keys-related-streams-after-Reset", "parties %d and %d have distinct keys but their streams after Reset differ in %d of 4096 bits", i, j, dist)
+					return
+				}
+			}
+		}
+		c.Cover("prng-reused-buffer", fmt.Sprint(parties))
+		c.State("prng-reused-buffer", parties, keyLen, final, order)
+		c.Outcome(name, parties, keyLen, final, order, engine.Hash(first[0]))
+	}}
+}
